@@ -80,6 +80,20 @@ var nameVariants = []struct {
 	{"$type.$id.info", "test.users.5.info", "5", "users", true, false},
 	{"$type.>", "test.users.7.more", "", "users", true, false},
 	{"item.$id", "test.mm.item.42", "42", "", false, true},
+	// resource names with more parts than any buffer the lookup may have sized for the common case
+	{"$type.>", "test.t." + longTail(40), "", "t", false, false},
+	{"$type.>", "test.users." + longTail(33), "", "users", true, false},
+}
+
+var malformedPool = []string{`{"cid":"c1","params":`, `{"cid":"c1","params":`, `{"cid":"c1"}}`, `{"cid":"c1"} x`, `{}]`, `null x`, `{"cid":"c1"}{"cid":"c2"}`,
+	`[1]`, `"str"`, `12`, `{"cid":1}`, `{"params":}`, `{"cid":"c1",}`, `nul`, "\xff\xfe{}", `{"token":{"a":1}} {`}
+
+func longTail(n int) string {
+	parts := make([]string, n)
+	for i := range parts {
+		parts[i] = fmt.Sprintf("p%d", i)
+	}
+	return strings.Join(parts, ".")
 }
 
 var strPool = []string{"plain", `q"uote`, "uni-é-☃", "sp ace", `back\slash`, "<>&", ""}
@@ -340,6 +354,9 @@ func execute(sc Scenario, rng *rand.Rand) (rec, error) {
 	name := nv.name
 	if !sc.Matched {
 		name = "test.nothing.here"
+		if nv.pattern != "$type.>" && sc.Name%2 == 1 && len(sc.Script)%2 == 1 {
+			name = "test.nothing." + longTail(34) // long, and no handler matches
+		}
 		if nv.pattern == "$type.>" {
 			name = "test.solo" // the only kind of name that pattern does not match
 		}
@@ -392,7 +409,9 @@ func execute(sc Scenario, rng *rand.Rand) (rec, error) {
 		}
 		data, _ = json.Marshal(p)
 	case "malformed":
-		data = []byte(`{"cid":"c1","params":`)
+		// texts that are not a JSON document of the request's shape: cut short, a complete value followed
+		// by more, a value of another type, a field of the wrong type
+		data = []byte(malformedPool[rng.Intn(len(malformedPool))])
 	default:
 		if sc.HTTP {
 			// the http flag needs a payload to travel in
